@@ -299,7 +299,7 @@ fn gen_case(r: &mut Rng, seed: u64, idx: u64) -> Case {
             let op = match choice {
                 0 | 1 | 2 => NOp::Edit(Ed::AddImport(0, nfp(&mut fpc)), None),
                 3 => { if it_added && !r.chance(1, 6) { continue; } NOp::Edit(Ed::AddImport(1, nfp(&mut fpc)), None) }
-                4 => { if r.chance(1, 3) && (fents.iter().any(|e| !e.import) || r.chance(1, 10)) { NOp::Edit(Ed::ItAddGlobal(nfp(&mut fpc)), None) } else { NOp::Edit(Ed::AddLocalG(nfp(&mut fpc)), None) } }
+                4 => { if r.chance(1, 3) { NOp::Edit(Ed::ItAddGlobal(nfp(&mut fpc)), None) } else { NOp::Edit(Ed::AddLocalG(nfp(&mut fpc)), None) } }
                 5 => { match pick(r, &fents, &|e| !e.late) { Some(id) => NOp::Edit(Ed::Delete(0, id), None), None => continue } }
                 6 => { match pick(r, &gents, &|e| !e.late) { Some(id) => NOp::Edit(Ed::Delete(1, id), None), None => continue } }
                 7 | 8 => { match pick(r, &fents, &|e| !e.import) { Some(id) => NOp::Edit(Ed::LocalToImport(id, nfp(&mut fpc)), None), None => continue } }
